@@ -1,5 +1,6 @@
 import PybtexModel.Drv.Json
 import PybtexModel.Model.Wrap
+import PybtexModel.Model.Interp
 open Lean
 namespace Pybtex.Drv.C19
 open Pybtex.Wrap
@@ -26,8 +27,29 @@ def wrapWidthsOp (j : Json) : Except String Json := do
                 obj [("lines", strs (iterLines w indent text)),
                      ("first_break", optJ nat (findBreak w indent text))]))])
 
+/-- `{"op":"wrap_engine","bst":…,"lines":[[piece,…],…]}`: a `.bst` program that, for every element
+of `lines`, `write$`s its pieces and calls `newline$`.  `out.bbl` = what the INTERPRETER model
+(`Interp.run`, the model of `Interpreter.run`) returns for the program text; `spec.engine` = the
+buffer semantics of `Model/Wrap.lean` (`engineOutput`) on the pieces; `spec.groups` = for every
+`newline$` the lines of `iter_lines` (before `rstrip`) of the concatenated pieces. -/
+def wrapEngineOp (j : Json) : Except String Json := do
+  let bst ← getStr j "bst"
+  let groups ← (← getArr j "lines").mapM fun g => do
+    (← g.getArr?).toList.mapM jsonToStr
+  let out : Json :=
+    match Bst.parseFile bst with
+    | .error _ => obj [("error", Json.str "BST-SYNTAX")]
+    | .ok prog =>
+      match Interp.run 1000000 prog { bibTexts := [], citations := [], minCrossrefs := 2 } with
+      | .error _ => obj [("error", Json.str "RUN")]
+      | .ok o => obj [("bbl", strToJson o.bbl)]
+  pure (obj [("out", out),
+             ("spec", obj [("engine", strToJson (engineOutput groups)),
+                           ("groups", arr (groups.map fun g =>
+                              obj [("lines", strs (iterLines 79 [' ', ' '] g.flatten))]))])])
+
 /-- driver ops of this property: (op name, handler) -/
 def handlers : List (String × (Json → Except String Json)) :=
-  [("wrap", wrapOp), ("wrap_widths", wrapWidthsOp)]
+  [("wrap", wrapOp), ("wrap_widths", wrapWidthsOp), ("wrap_engine", wrapEngineOp)]
 
 end Pybtex.Drv.C19
